@@ -40,10 +40,12 @@ def props_of(op, clause: str, text: str) -> set[str]:
     if clause == "source.changed":
         return {"C07"}
     if clause == "refuse.missing":
+        # C13 quantifies over "all operations with arguments that the documentation declares invalid": such a call that is
+        # *not* refused (and goes on to change the tree) is a C13 case as well as a case of the property the refusal protects
         if "UniqueConstraintError" in text and "move below itself" not in text and "into itself" not in text:
-            return {"C03"}
+            return {"C03", "C13"}
         if "below itself" in text or "into itself" in text:
-            return {"C01", "C07"} if t in COPY_OPS else {"C01"}
+            return {"C01", "C07", "C13"} if t in COPY_OPS else {"C01", "C13"}
         return {"C13"}
     if clause == "refuse.kind":
         if "spec refuses with UniqueConstraintError (" in text:
@@ -156,6 +158,26 @@ def clone_group_specs():
             out.append(gen.Spec(tuple(nodes)))
     # a clone nested inside another clone's branch
     out.append(gen.Spec(((-1, "p", None, None), (0, "x", None, None), (1, "q", None, None), (2, "x", None, None), (3, "d", None, None), (2, "d", None, None), (-1, "x", None, None))))
+    # un-nesting collisions: x has 2..3 children, the j-th of them equals a sibling of x (in front of / behind x), at top level
+    # and one level down: remove(keep_children=True) must be refused whatever the position of the colliding child
+    for m in (2, 3):
+        for j in range(m):
+            for sib_first in (False, True):
+                for nested in (False, True):
+                    nodes, par = [], -1
+                    if nested:
+                        nodes.append((-1, "p", None, None))
+                        par = 0
+                    kids_ = "abc"[:m]
+                    if sib_first:
+                        nodes.append((par, kids_[j], None, None))
+                    xi = len(nodes)
+                    nodes.append((par, "x", None, None))
+                    for lab in kids_:
+                        nodes.append((xi, lab, None, None))
+                    if not sib_first:
+                        nodes.append((par, kids_[j], None, None))
+                    out.append(gen.Spec(tuple(nodes)))
     # clones nested *directly* below each other (x[x[..]]): with keep_children their children move up several levels
     for depth in (2, 3):
         for sibs in itertools.product((False, True), repeat=depth):  # a sibling d next to the x of level k
@@ -266,7 +288,7 @@ def sweep(prop: str, tier: str) -> Result:
     )
     if prop in ("C01", "C02", "C03", "C04", "C13"):
         total.merge(parallel(_targeted_chunk, clone_group_specs(), prop, prop=prop))
-        total.bounds["clone groups (targeted)"] = "three parents each holding a clone x, with/without a child d below x and a sibling d next to x (<= 4 extras), plus a clone nested in a clone and chains of 2..3 directly nested clones x[x[..]] with d below the innermost and/or next to each level: remove (all flag combinations), set_data (with_clones None/False/True) and move_to of every clone"
+        total.bounds["clone groups (targeted)"] = "three parents each holding a clone x, with/without a child d below x and a sibling d next to x (<= 4 extras), x with 2..3 children of which the j-th equals a sibling of x (every j, sibling before / behind, top level / nested), plus a clone nested in a clone and chains of 2..3 directly nested clones x[x[..]] with d below the innermost and/or next to each level: remove (all flag combinations), set_data (with_clones None/False/True) and move_to of every clone"
     if "sort" in groups:
         total.merge(parallel(_sort_chunk, sort_specs(), prop, prop=prop))
         total.bounds["deep sort (targeted)"] = "5 trees of 5..7 nodes with unsorted child lists at depth 1..3 below single-child chains and next to sorted / one-element lists: sort_children / Tree.sort from every node, every key, reverse and deep on/off"
